@@ -11,9 +11,7 @@ structure of `ReportSolution2AMPL`) are *regenerated on every run* from the work
 
 All theorems quantify over **every** `c : Int` (not only −200..999) and every answer.
 
-Three statements do **not** hold for the code as it exists (see `design_notes/C10.md`):
-the full-strength statement is kept in a comment next to the proved `…_partial` theorem and a
-proved counterexample theorem; the check replays the counterexamples against the compiled code.
+(Version for the tree with repo_patches/C10-fix-*.diff applied: every statement at full strength.)
 -/
 namespace MpVerif.C10
 open MpVerif.Gen.Status
@@ -90,44 +88,10 @@ theorem C10_infOrUnb_iff (c : Int) :
 theorem C10_retrieved_iff (c : Int) : isSolStatusRetrieved c = true ↔ c ≠ -200 := by
   c10_unfold_gen; omega
 
-/- FULL STRENGTH (does not hold for the code as it is: 299 is excluded by `INFEASIBLE_LAST > sc`):
-theorem C10_infeasible_iff (c : Int) : isProblemInfeasible c = true ↔ documented c = .infeasible
--/
-/-- proved part: everywhere except the code 299 -/
-theorem C10_infeasible_iff_partial (c : Int) (h : c ≠ 299) :
-    isProblemInfeasible c = true ↔ documented c = .infeasible := by
-  c10_doc; c10_unfold_gen <;> omega
-/-- counterexample to the full statement: 299 is documented infeasible but not classified so -/
-theorem C10_counterexample_infeasible_299 :
-    documented 299 = .infeasible ∧ isProblemInfeasible 299 = false := by decide
-/-- soundness direction holds everywhere -/
-theorem C10_infeasible_sound (c : Int) (h : isProblemInfeasible c = true) : documented c = .infeasible := by
+theorem C10_infeasible_iff (c : Int) : isProblemInfeasible c = true ↔ documented c = .infeasible := by
   c10_doc; c10_unfold_gen <;> omega
 
-/- FULL STRENGTH (does not hold: the comparisons of the 400–449 and 300–349 clauses are reversed,
-   `LIMIT_FEAS >= code && LIMIT_FEAS_LAST <= code`, so these clauses are never true):
-theorem C10_solvedOrFeasible_iff (c : Int) : isProblemSolvedOrFeasible c = true ↔ candidate c = true
--/
-/-- proved part: outside 300–349 and 400–449 -/
-theorem C10_solvedOrFeasible_iff_partial (c : Int)
-    (hU : ¬ (300 ≤ c ∧ c ≤ 349)) (hL : ¬ (400 ≤ c ∧ c ≤ 449)) :
-    isProblemSolvedOrFeasible c = true ↔ candidate c = true := by
-  c10_doc; c10_unfold_gen <;> omega
-/-- counterexample class 1: every limit-with-solution code is a candidate but not recognised -/
-theorem C10_counterexample_solvedOrFeasible_limit (c : Int) (h : 400 ≤ c ∧ c ≤ 449) :
-    candidate c = true ∧ isProblemSolvedOrFeasible c = false := by
-  constructor
-  · c10_doc; omega
-  · rw [Bool.eq_false_iff]; intro hh; c10_unfold_gen; omega
-/-- counterexample class 2: every unbounded-with-solution code is a candidate but not recognised -/
-theorem C10_counterexample_solvedOrFeasible_unbounded (c : Int) (h : 300 ≤ c ∧ c ≤ 349) :
-    candidate c = true ∧ isProblemSolvedOrFeasible c = false := by
-  constructor
-  · c10_doc; omega
-  · rw [Bool.eq_false_iff]; intro hh; c10_unfold_gen; omega
-/-- soundness direction holds everywhere -/
-theorem C10_solvedOrFeasible_sound (c : Int) (h : isProblemSolvedOrFeasible c = true) :
-    candidate c = true := by
+theorem C10_solvedOrFeasible_iff (c : Int) : isProblemSolvedOrFeasible c = true ↔ candidate c = true := by
   c10_doc; c10_unfold_gen <;> omega
 
 /-- solved ⇒ solved-or-feasible; infeasible ⇒ inf-or-unb; unbounded ⇒ inf-or-unb; indiff ⇒ inf-or-unb -/
@@ -158,34 +122,11 @@ theorem C10_code_echo (a : Answer) : (report a).codeWritten = a.code := rfl
 theorem C10_vectors_echo (a : Answer) :
     (report a).primalPassed = a.hasPrimal ∧ (report a).dualPassed = a.hasDual := ⟨rfl, rfl⟩
 
-/- FULL STRENGTH (does not hold: follows `IsProblemSolvedOrFeasible`, which misses 300–349, 400–449):
+/-- **the objective value appears exactly when a solution candidate is indicated** (and a value exists) -/
 theorem C10_objective_iff (a : Answer) :
-    (report a).objectiveShown = true ↔ (candidate a.code = true ∧ a.nObj > 0)
--/
-/-- proved part: for answers whose code is outside 300–349 and 400–449 -/
-theorem C10_objective_iff_partial (a : Answer)
-    (hU : ¬ (300 ≤ a.code ∧ a.code ≤ 349)) (hL : ¬ (400 ≤ a.code ∧ a.code ≤ 449)) :
     (report a).objectiveShown = true ↔ (candidate a.code = true ∧ a.nObj > 0) := by
   unfold report
-  simp only [Bool.and_eq_true, decide_eq_true_eq, C10_solvedOrFeasible_iff_partial a.code hU hL]
-/-- counterexample classes: limit / unbounded with a feasible solution and an objective value:
-    a candidate is indicated, the objective value is not shown -/
-theorem C10_counterexample_objective (a : Answer)
-    (h : (400 ≤ a.code ∧ a.code ≤ 449) ∨ (300 ≤ a.code ∧ a.code ≤ 349)) (hn : a.nObj > 0) :
-    (candidate a.code = true ∧ a.nObj > 0) ∧ (report a).objectiveShown = false := by
-  unfold report
-  rcases h with h | h
-  · have := C10_counterexample_solvedOrFeasible_limit a.code h
-    simp only [this.1, this.2, hn, and_self, Bool.false_and]
-  · have := C10_counterexample_solvedOrFeasible_unbounded a.code h
-    simp only [this.1, this.2, hn, and_self, Bool.false_and]
-/-- "only when": the objective value is shown only when a candidate is indicated and a value exists
-    (holds for every answer) -/
-theorem C10_objective_only_if (a : Answer) (h : (report a).objectiveShown = true) :
-    candidate a.code = true ∧ a.nObj > 0 := by
-  unfold report at h
-  simp only [Bool.and_eq_true, decide_eq_true_eq] at h
-  exact ⟨C10_solvedOrFeasible_sound a.code h.1, h.2⟩
+  simp only [Bool.and_eq_true, decide_eq_true_eq, C10_solvedOrFeasible_iff a.code]
 /-- the objective value is never shown without objective values, whatever the code -/
 theorem C10_no_objective_no_value (a : Answer) (h : a.nObj = 0) : (report a).objectiveShown = false := by
   unfold report; simp [h]
@@ -196,6 +137,8 @@ theorem C10_witness_ranges : classify 402 = .limitFeas ∧ classify 1000 = .uncl
 theorem C10_witness_objective :
     (report ⟨0, 1, true, true, false⟩).objectiveShown = true ∧ (report ⟨250, 1, true, false, false⟩).objectiveShown = false ∧
     (report ⟨0, 0, true, true, false⟩).objectiveShown = false := by decide
+theorem C10_witness_fixed : (report ⟨402, 1, true, false, false⟩).objectiveShown = true ∧ (report ⟨300, 1, false, false, false⟩).objectiveShown = true ∧
+    isProblemInfeasible 299 = true := by decide
 theorem C10_witness_code : (report ⟨567, 0, false, true, false⟩).codeWritten = 567 := by decide
 theorem C10_witness_infeasible : ∃ c, documented c = .infeasible ∧ isProblemInfeasible c = true := ⟨200, by decide⟩
 
